@@ -305,3 +305,78 @@ class Check:
               f'violations={len(self.violations)} known_hits={sum(self.known_hits.values())} '
               f'drift={len(self.drift)} wall={ev["wall_s"]}s', flush=True)
         return 1 if self.violations else 0
+
+
+# ------------------------------------------------------------------ scoring stamps (run-time wrapper, guard-controlled)
+_SEQ = [0]
+
+
+def install_stamps():
+    """Wraps BaseMatching.__init__ and BaseMatching._update_inner (add-only, at run time, only when the guard
+    LEUVENMAPMATCHING_VERIF is set) so that every lattice entry carries the sequence number of the moment its score was
+    last written (creation, or in-place replacement by a better candidate) and the expansion round (expand_now) in
+    which that happened.  Kept in a dict on the matcher object.  Used to recognise F-stale: a predecessor replaced in
+    place after its successor was scored."""
+    if os.environ.get('LEUVENMAPMATCHING_VERIF') != '1':
+        return False
+    import_repo()
+    from leuvenmapmatching.matcher.base import BaseMatching
+    if getattr(BaseMatching, '_verif_stamped', False):
+        return True
+    init0, upd0, update0 = BaseMatching.__init__, BaseMatching._update_inner, BaseMatching.update
+
+    def _mark(x):
+        mt = getattr(x, 'matcher', None)
+        if mt is None:
+            return
+        _SEQ[0] += 1
+        try:
+            mt.__dict__.setdefault('_verif_stamps', {})[id(x)] = [_SEQ[0], getattr(mt, 'expand_now', 0) or 0]
+        except Exception:
+            pass
+
+    def init1(self, *a, **kw):
+        init0(self, *a, **kw)
+        _mark(self)
+
+    def upd1(self, m_other):
+        upd0(self, m_other)
+        _mark(self)
+
+    def update1(self, m_next):
+        """Lattice.Upsert replaces the stored entry by the winning candidate as a whole; an in-place replacement that
+        leaves a model field of the old entry behind is counted on the matcher (`_verif_partial`)."""
+        r = update0(self, m_next)
+        if r:
+            try:
+                bad = [f for f in REPLACED_FIELDS if hasattr(m_next, f) and getattr(self, f) != getattr(m_next, f)]
+                if self.edge_m.l1 != m_next.edge_m.l1 or self.edge_m.l2 != m_next.edge_m.l2:
+                    bad.append('edge_m')
+                if bad:
+                    mt = self.matcher
+                    d = mt.__dict__.setdefault('_verif_partial', {})
+                    for f in bad:
+                        d[f] = d.get(f, 0) + 1
+            except Exception:
+                pass
+        return r
+
+    BaseMatching.__init__, BaseMatching._update_inner, BaseMatching.update = init1, upd1, update1
+    BaseMatching._verif_stamped = True
+    return True
+
+
+# the fields of a lattice entry the specification's entries carry (+ the accumulated distances of the distance model)
+REPLACED_FIELDS = ('logprob', 'logprobe', 'logprobne', 'dist_obs', 'obs', 'obs_ne', 'prev', 'stop', 'delayed', 'length',
+                   'd_s', 'd_o')
+
+
+def partial_replacements(matcher):
+    """{field: count} of in-place replacements that did not take the field from the winning candidate"""
+    return dict(getattr(matcher, '_verif_partial', None) or {})
+
+
+def stamp_of(x):
+    mt = getattr(x, 'matcher', None)
+    d = getattr(mt, '_verif_stamps', None) if mt is not None else None
+    return list(d.get(id(x), [0, 0])) if d else [0, 0]
